@@ -1,5 +1,6 @@
 import TexelVerif.Drv.TT
 import TexelVerif.Drv.Chess
+import TexelVerif.Drv.Rev
 /-! Line-protocol driver: one operation per stdin line, one canonical reply line.
     Imports model files only (no proofs, no Mathlib), so it links as a `lean_exe`. -/
 
@@ -11,6 +12,7 @@ def dispatch (st : DrvState) (line : String) : DrvState × String :=
   match toks with
   | "tt" :: args => let (t, o) := Drv.TT.step st.tt args; ({ st with tt := t }, o)
   | "chess" :: args => (st, Drv.Chess.step args)
+  | "rev" :: args => (st, Drv.Rev.step args)
   | _ => (st, "bad-op")
 
 partial def loop (h : IO.FS.Stream) (out : IO.FS.Stream) (st : DrvState) : IO Unit := do
